@@ -1,5 +1,6 @@
 import Drv.Util
 import Drv.Gmm
+import Drv.KMeans
 open Lean Drv
 
 def dispatch (j : Json) : Json :=
@@ -10,6 +11,9 @@ def dispatch (j : Json) : Json :=
   | "gmm_mstep_map" => opGmmMstepMap j
   | "stats_add" => opStatsAdd j
   | "em_stop" => opEmStop j
+  | "kmeans_iter" => opKMeansIter j
+  | "kmeans_dist" => opKMeansDist j
+  | "kmeans_vw" => opKMeansVW j
   | op => obj [("err", Json.str s!"bad-op {op}")]
 
 partial def loop (h : IO.FS.Stream) (out : IO.FS.Stream) : IO Unit := do
